@@ -617,9 +617,10 @@ class Node:
             topnodes = child._root.children.copy()
             if before is not None and before is not False:
                 topnodes.reverse()
+            node = None
             for n in topnodes:
-                self.add_child(n, before=before, deep=deep)
-            return n  # need to return a node
+                node = self.add_child(n, before=before, deep=deep)
+            return node  # the last new node (None if `child` is empty)
 
         source_node = None
         factory = self._tree._node_factory
